@@ -356,7 +356,28 @@ func (r *fateRun) challenge(step string, cl *fateClient) (www base.HeaderValue, 
 		return nil, "", false
 	}
 	nonce, ok = r.checkChallenge(step, res, cl)
+	r.corrFate(cl, nil, res.Header["WWW-Authenticate"])
 	return res.Header["WWW-Authenticate"], nonce, ok
+}
+
+// corrFate ties the model of handleAuthError (Coq: handle_auth_error, case kind 6) to the running server: given the
+// Authorization values of a request the handler refused, the 401 carries exactly the challenge (connection kept) or
+// no WWW-Authenticate at all (connection closed - checked separately by expectEnded).
+func (r *fateRun) corrFate(cl *fateClient, authz []string, www []string) {
+	var l hx.L
+	l.N(6)
+	putMethods(&l, r.methods)
+	putS(&l, fateRealm)
+	putS(&l, r.h.nonceOf(cl.addr))
+	putSS(&l, authz)
+	var il hx.L
+	if len(www) == 0 {
+		il.N(0)
+	} else {
+		il.N(1)
+		putSS(&il, www)
+	}
+	r.ctx.Corr(l.String(), il.String())
 }
 
 // authorize builds the Authorization header with the library's client-side Sender.
@@ -561,6 +582,7 @@ func (r *fateRun) rejectedAndEnded(step string, cl *fateClient, req *base.Reques
 	}
 	r.ctx.Kind("fate:" + adj + "-credentials-401-www-authenticate-" + k)
 	r.wwwSeen[adj+"/"+k]++
+	r.corrFate(cl, []string(req.Header["Authorization"]), []string(res.Header["WWW-Authenticate"]))
 	r.expectEnded(step, cl, f9, what+" answered 401")
 }
 
